@@ -24,6 +24,14 @@ CHECKS = {
    text="CycleLimit.tla: safety (clock never passes the limit, exact success condition, no step after the limit) and liveness (every program, incl. a non-terminating one, stops) checked by TLC under weak fairness; the model's closed form generates, for every corpus program, limits n-2..n+2 and others x expected-cycles hints, and the option-set acceptance table; all replayed on the real processor (error payload = the limit, reported max_cycles = the given one).",
    note="Trusted: TLC; the cycle count n of a terminating program is measured by an unlimited run of the implementation.",
    tech="TLA+ safety + liveness model checked with TLC; model-generated limits replayed", ref="DESIGN.md §4 C15"),
+ "C09": dict(cat="model_checking",
+   text="The reference defines every hinted instruction as a function of its operands (Masm.tla, U64.tla); Hints.tla adds an abstract Merkle model with an injective hash. TLC enumerates (instruction, operands, host answer): u32clz/ctz/clo/cto/ilog2 x every hint 0..65 and large values, ext2inv/ext2div x perturbed inverses, u64 div/mod/divmod x every candidate (q', r') with q'*b+r' = a mod 2^64 and others, Merkle get/verify/set x flipped / truncated / extended / reversed / other-node paths and substituted nodes on all trees of depth <= 3, advice pop order; each with the prescribed outcome. Every scenario runs on the real VM under a host that substitutes the hint; accepted iff failure or the prescribed result (honest host: the prescribed result).",
+   note="Trusted: TLC, miden-crypto Merkle / RPO primitives (the abstract model's hash is injective); a panic under a dishonest host counts as 'does not complete' (recorded in evidence).",
+   tech="TLA+ spec of hint-free results + abstract Merkle model; TLC-enumerated host behaviours replayed with a dishonest Host", ref="DESIGN.md §4 C09"),
+ "C16": dict(cat="model_checking",
+   text="Nat.tla defines add/sub/mul/divmod/comparisons/bitwise/shifts/rotations/bit counts on little-endian limb sequences; TLC proves them equal to integer arithmetic for all pairs of 8-bit numbers in the mini field, the same text at full width is the oracle: GEN_U64 enumerates every documented std::math::u64 procedure x all limb combinations of the boundary set (all shift amounts 0..63) and the u256 procedures on limb patterns; each call runs on the real VM with a sentinel stack underneath and must equal the contract (U64.tla) on every stack position; zero divisors must fail.",
+   note="Trusted: TLC; u64.md and the u256.masm doc comments as the contract (overflowing_mul is read as the 128-bit product).",
+   tech="TLA+ limb-arithmetic spec checked exhaustively in a mini field; contract-generated calls replayed on the VM", ref="DESIGN.md §4 C16"),
 }
 
 NOT_APPLICABLE = {
